@@ -215,6 +215,18 @@ Definition run_op (r : router) (pats : list bytes) (t : table) (o : op) : table 
           | None => ObsSnap None
           | Some rt => match snapshot_of rt with Ok s => ObsSnap (Some s) | _ => ObsPanic end
           end)
+  | OLookup _ key adj _ =>
+      (* Router.Lookup (fox.go:313-332) and Txn.Lookup (txn.go:246-269) are the same code over the router's or the
+         transaction's tree: n found (tsr or not) => c.route = n.route; c.tsr = tsr; return n.route, c, tsr.
+         The tree reports tsr for a slash-adjusted match whatever the route's trailing-slash mode is.
+         Then route.Handle(cc) / route.HandleMiddleware(cc) call hbase / hself with cc. *)
+      (t, match lookup key t with
+          | None => ObsLookupNone
+          | Some rt =>
+              let c := mkCtx (Some rt) in
+              if rt_handler rt then ObsLookup adj (view_of r c) (view_of r (clone c)) (view_of r (clone_with c)) (Some (view_of r c))
+              else ObsPanic                                                                 (* calling a nil HandlerFunc *)
+          end)
   end.
 
 Fixpoint run_ops (r : router) (pats : list bytes) (t : table) (ops : list op) : list obs :=
